@@ -128,22 +128,12 @@ class Mirror:
 
 
 def _spell(rng, cwd: List[str], target: List[str]) -> str:
-    """A path string denoting `target` from group `cwd` (relative when possible)."""
+    """A path string denoting `target` from group `cwd` (relative when possible).  User paths
+    are spelled canonically: IH5 does not resolve "./x" and "a//b" like h5py does (a driver
+    difference, property C09); those spellings are exercised with reserved paths only."""
     if target[:len(cwd)] == cwd and len(target) > len(cwd) and rng.random() < 0.7:
-        segs = target[len(cwd):]
-        s = "/".join(segs)
-        r = rng.random()
-        if r < 0.08:
-            s = "./" + s
-        elif r < 0.14 and len(segs) > 1:
-            s = segs[0] + "//" + "/".join(segs[1:])
-        elif r < 0.18:
-            s = s + "/"
-        return s
-    s = absname(target)
-    if rng.random() < 0.06 and target:
-        s = "/" + s
-    return s
+        return "/".join(target[len(cwd):])
+    return absname(target)
 
 
 def _reserved_path(rng, mir: Mirror) -> str:
@@ -223,7 +213,11 @@ def gen_history(rng, nops: int, p_reserved: float = 0.12) -> List[list]:
             op = ["copy", cwds, _spell(rng, cwd, s), _spell(rng, cwd, d), wm]
             mir.cp(s, d, with_meta=not wm)
         elif r < 0.70:
-            s, dg = some_existing(), list(rng.choice(groups))
+            # not into the root group: the wrapper builds "//name", which IH5 does not resolve
+            nonroot = [g for g in groups if g]
+            if not nonroot:
+                continue
+            s, dg = some_existing(), list(rng.choice(nonroot))
             name = [rng.choice(SEGS)] if rng.random() < 0.7 else []
             d = dg + (name if name else s[-1:])
             if d[:len(s)] == s:
@@ -430,6 +424,11 @@ def open_container(drv: str, d):
 
 # ---- protocol enumeration
 
+OP_METHOD = {"mkgrp": "create_group", "reqgrp": "require_group", "mkds": "create_dataset",
+             "reqds": "require_dataset", "set": "__setitem__", "del": "__delitem__", "copyinto": "copy",
+             "get": "__getitem__", "attach": "__getitem__", "detach": "__getitem__", "aset": "__getitem__",
+             "adel": "__getitem__"}
+
 LIFECYCLE = {
     # reviewed: object life cycle / attribute protocol / pickling -- take no node path
     "__init__", "__new__", "__class__", "__del__", "close", "flush", "__enter__", "__exit__",
@@ -532,7 +531,7 @@ def probe_protocol(env, only: Optional[str] = None) -> Tuple[List[dict], Dict[st
     def fresh_obj(where):
         return env["m"] if where == "/" and True else env["m"][where]
 
-    def check_after(what: dict, result, raised: Optional[BaseException], must_raise: bool):
+    def check_after(what: dict, result, raised: Optional[BaseException], must_raise: bool, echo=()):
         stats["probed_calls"] += 1
         try:
             now = dump_tree(env["m"].__wrapped__)
@@ -547,7 +546,7 @@ def probe_protocol(env, only: Optional[str] = None) -> Tuple[List[dict], Dict[st
             env["rebuild"]()
             return False
         if raised is None:
-            leaked = scan(result)
+            leaked = [x for x in scan(result) if x not in echo]
             if leaked:
                 viol.append(dict(what, kind="reserved-leak", leaked=leaked[:5]))
             elif must_raise:
@@ -602,7 +601,7 @@ def probe_protocol(env, only: Optional[str] = None) -> Tuple[List[dict], Dict[st
             grpnode = None
             try:
                 node = env["m"][u_exist] if u_exist else None
-                grpnode = env["m"][groups[0]] if groups else env["m"]["/"]
+                grpnode = env["m"]["/"]      # never inside the source (IH5 would not terminate)
             except Exception:  # noqa: BLE001
                 pass
             for R in (forms if reviewed else forms[:1] + forms[5:6] + forms[-1:]):
@@ -638,12 +637,13 @@ def probe_protocol(env, only: Optional[str] = None) -> Tuple[List[dict], Dict[st
                             raise
                         exc = e
                     what = dict(base, shape=sname, path=R)
-                    if not check_after(what, res, exc, must_raise=name in PATH_METHODS):
+                    echo = [a for a in list(args) + list(kw.values()) if isinstance(a, str)]
+                    if not check_after(what, res, exc, must_raise=name in PATH_METHODS, echo=echo):
                         # state was rebuilt: refresh handles
                         view, raw0 = env["view"], env["rawdump"]
                         try:
                             node = env["m"][u_exist] if u_exist else None
-                            grpnode = env["m"][groups[0]] if groups else env["m"]["/"]
+                            grpnode = env["m"]["/"]
                         except Exception:  # noqa: BLE001
                             pass
     return viol, stats
@@ -656,7 +656,9 @@ def run_history(task) -> Dict[str, Any]:
     drv, ops = task["driver"], task["ops"]
     probe_at = set(task.get("probe_at") or [])
     out: Dict[str, Any] = {"steps": [], "viol": [], "stats": None, "raw_final": None, "error": None}
+    import time
     import h5py
+    t_start = time.time()
     with vlib.workdir("c08") as d:
         env: Dict[str, Any] = {}
 
@@ -716,7 +718,7 @@ def run_history(task) -> Dict[str, Any]:
                         if cls == "ok" or raw_now != before:
                             diff = sorted(set(raw_now) ^ set(before))
                             out["viol"].append({"kind": "reserved-effect" if raw_now != before else "reserved-accepted",
-                                                "method": op[0], "shape": "history-op", "step": i,
+                                                "method": OP_METHOD.get(op[0], op[0]), "shape": "history-op", "step": i,
                                                 "op": op, "cls": cls, "changed": diff[:6]})
                     # oracle (b): listings vs raw dump
                     for gname, o in lst.items():
@@ -739,8 +741,9 @@ def run_history(task) -> Dict[str, Any]:
                         except Exception:  # noqa: BLE001
                             pcls = "fail"
                         step["plain_cls"] = pcls
-                    pview = dump_tree(plain)
+                    pview = dump_tree(plain) if not env.get("plain_off") else view
                     if pview != view:
+                        env["plain_off"] = True
                         diff = sorted(k for k in set(pview) | set(view) if pview.get(k) != view.get(k))
                         out["viol"].append({"kind": "plain-mismatch", "method": op[0], "step": i, "op": op,
                                             "differs_at": diff[:6]})
@@ -772,6 +775,7 @@ def run_history(task) -> Dict[str, Any]:
                 env["raw"].close()
             except Exception:  # noqa: BLE001
                 pass
+    out["secs"] = round(time.time() - t_start, 1)
     return out
 
 
@@ -856,17 +860,17 @@ def w_run(task):
 
 
 def sig_of(v: dict) -> dict:
-    return {"kind": v["kind"], "method": v.get("method"), "shape": v.get("shape") if v["kind"] != "listing-leak" else None}
+    return {"kind": v["kind"], "method": v.get("method")}
 
 
 def _same_finding(v, target) -> bool:
     return sig_of(v) == sig_of(target)
 
 
-def shrink(task, target) -> List[list]:
+def w_shrink(job) -> List[list]:
     """ddmin over the history for one finding (probes restricted to its method)."""
-    probe = target.get("shape") != "history-op" and target["kind"] in ("reserved-effect", "reserved-leak", "reserved-accepted") \
-        or (target["kind"] == "listing-leak" and "object" in target)
+    task, target = job
+    probe = "object" in target
     ops = list(task["ops"][: target["step"] + 1])
 
     def fails(cand):
@@ -874,9 +878,12 @@ def shrink(task, target) -> List[list]:
              "probe_at": [len(cand) - 1] if probe else [], "only": target.get("method") if probe else None}
         r = run_history(t)
         return any(_same_finding(v, target) for v in r["viol"])
-    if not ops or not fails(ops):
+    try:
+        if not ops or not fails(ops):
+            return ops
+        return vlib.ddmin(ops, fails, budget=24)
+    except Exception:  # noqa: BLE001
         return ops
-    return vlib.ddmin(ops, fails, budget=40)
 
 
 def run(ctx: vlib.Ctx):
@@ -908,12 +915,18 @@ def run(ctx: vlib.Ctx):
                 probe_at = sorted({len(ops) - 1, ctx.rng.randrange(len(ops))})
             tasks.append({"driver": drv, "ops": ops, "probe_at": probe_at, "hist": hi,
                           "limit": 600 if probe_at else 240})
+    import time
+    t0 = time.time()
     mres = vlib.run_model("c08", hists)
+    t1 = time.time()
     results = vlib.pmap(w_run, tasks)
+    t2 = time.time()
     xc = vlib.coq_crosscheck("c08", hists, mres, "c08", max_cases=ctx.budget(6, 20))
+    vlib.log(f"c08: model {t1 - t0:.1f}s, implementation {t2 - t1:.1f}s, crosscheck {time.time() - t2:.1f}s; slowest tasks "
+             + str(sorted(((r.get("secs"), t["driver"], len(t["ops"]), len(t["probe_at"])) for t, r in zip(tasks, results)), reverse=True)[:8]))
 
     disagreements: List[dict] = []
-    findings: Dict[str, Tuple[dict, dict]] = {}
+    findings: Dict[str, Tuple[dict, dict, tuple]] = {}
     errors = []
     evals = 0
     stats = {"names": 0, "refused": 0, "probed_calls": 0, "unreviewed": set()}
@@ -929,9 +942,10 @@ def run(ctx: vlib.Ctx):
                 stats[k] += got["stats"][k]
             stats["unreviewed"] |= set(got["stats"]["unreviewed"])
         for v in got["viol"]:
-            key = vlib.signature([task["driver"], sig_of(v)])
-            if key not in findings:
-                findings[key] = (task, v)
+            key = vlib.signature(sig_of(v))
+            rank = ("object" in v, task["driver"] != "h5", v["step"])
+            if key not in findings or rank < findings[key][2]:
+                findings[key] = (task, v, rank)
         # the model's own plain-tree run must equal its final user view (instance of C08_user_view)
         m = mres[task["hist"]]
         if model_view(m[0][-1][1]) != model_view(m[2]):
@@ -948,12 +962,11 @@ def run(ctx: vlib.Ctx):
             if not again["error"]:
                 errors.remove(e)
 
-    for key, (task, v) in sorted(findings.items()):
-        small = shrink(task, v)
-        rep = {"kind": v["kind"], "driver": task["driver"], "ops": small, "finding": v,
-               "probe": v.get("shape") != "history-op" and "object" in v}
-        what = describe(v, task["driver"])
-        ctx.violation(what, rep, sig_obj={"driver": task["driver"], **sig_of(v)})
+    flist = [(task, v) for _k, (task, v, _r) in sorted(findings.items())]
+    smalls = vlib.pmap(w_shrink, flist)
+    for (task, v), small in zip(flist, smalls):
+        rep = {"kind": v["kind"], "driver": task["driver"], "ops": small, "finding": v, "probe": "object" in v}
+        ctx.violation(describe(v, task["driver"]), rep, sig_obj=sig_of(v))
 
     cov["evaluations"] = evals + stats["probed_calls"]
     distinct = len({vlib.signature([t["driver"], t["ops"][:i + 1]]) for t in tasks for i in range(len(t["ops"]))})
